@@ -60,3 +60,13 @@ def _union_unmarshal_lossy(prop, v):
 def _zero_pt(prop, v):
     """timedelta(0) is written as 'PT' (no component), which is not well-formed ISO-8601; tests/unit/test_codec.py pins it."""
     return v.get("kind") == "iso-not-wellformed" and v.get("text") == "PT" and v.get("value") == "datetime.timedelta(0)"
+
+
+# ---- C14 -----------------------------------------------------------------------------------
+
+@classifier("json-backend-reads-big-ints-as-floats")
+def _bigint_backend(prop, v):
+    """The default JSON backend (orjson) reads integers outside [-2^63, 2^64) as floats (or rejects them beyond
+    1e308, after which load() falls back to literal_eval / the raw text): JSON text of a wire value holding such
+    an int does not unmarshal like the value itself."""
+    return v.get("kind") in ("text-differs-from-value", "load-json-differs") and v.get("big_int_in_wire") is True
